@@ -491,10 +491,14 @@ def generate(progs, out_dir, harness_dir, repo, shards, prefix, write_if_changed
         cands = sorted({m["wire"] for part in p["parts"] for m in part["methods"] if m["kind"] in ENUM_KINDS} | {"zz_unknown"})
         q["candidates"] = cands
         rows.append(q)
-    shards = max(1, min(shards, len(progs)))
+    # programs that are expected not to build get shards of their own, so that their failure does not disturb the rest
+    special = [p for p in progs if p.get("family") == "collide"]
+    normal = [p for p in progs if p.get("family") != "collide"]
+    shards = max(1, min(shards, len(normal)))
     groups = [[] for _ in range(shards)]
-    for i, p in enumerate(sorted(progs, key=lambda x: -sum(len(pt["methods"]) for pt in x["parts"]))):
+    for i, p in enumerate(sorted(normal, key=lambda x: -sum(len(pt["methods"]) for pt in x["parts"]))):
         groups[i % shards].append(p)
+    groups += [[p] for p in special]
     bins = []
     members = []
     spans = {}
